@@ -59,7 +59,23 @@ func region(f filedrv.File, c int) string {
 }
 
 func runFile(c *fw.Ctx, f filedrv.File) {
+	interesting := map[int]bool{}
+	if f.Big {
+		for _, b := range f.Layout.Blocks {
+			for _, x := range []int{b.Start, b.SizeOff, b.PayloadStart, b.PayloadEnd, b.End} {
+				for d := -3; d <= 3; d++ {
+					interesting[x+d] = true
+				}
+			}
+			for x := b.PayloadEnd; x <= b.End; x++ {
+				interesting[x] = true
+			}
+		}
+	}
 	for cut := 0; cut <= len(f.Data); cut++ {
+		if f.Big && cut > f.Layout.HeaderEnd+3 && !interesting[cut] && cut%97 != 0 {
+			continue
+		}
 		// oracle from the reference layout of the uncut file
 		complete := 0
 		okEnd := cut == f.Layout.HeaderEnd
